@@ -39,6 +39,8 @@ def transcript_programs():
     progs.append(("prog", "exp", "k", ("uid", "seg"), ("if", ("cmp", ("id", "seg"), "in", ("tup", tuple(("lit", c) for c in "xyzwvu"))), ("ret", (("in", "1"), ("IN", "1"))),
                                                        ("else", ("ret", (("out", "1"), ("out", "1"), ("OUT", "2")))))))
     progs.append(("prog", "exp", "c", ("userId", "userid", "USERID"), multi))
+    progs.append(("prog", "exp", "dup", ("uid", "region", "uid"), multi))  # a splitter listed twice counts once
+    progs.append(("prog", "exp", None, ("b", "a", "b", "a"), multi))
     # non-ASCII text in every position of a program (salt, labels, operands, tuple members, under `not`): anything that prints
     # or logs a piece of the source meets the process's stdout / locale encoding
     ne = ("not", ("cmp", ("id", "seg"), "==", ("lit", "zürich")))
